@@ -347,6 +347,8 @@ fn run(scn: &Value) -> Value {
             sets.push(check_set("kset", &members, &u, len, &extra, verbose));
         }
     }
+    // the set of no globs at all (asked through the `_into` entry points with a buffer that still holds something)
+    sets.push(check_set("empty", &[], &u, pairs_len.max(3).min(len), &extra, verbose));
     // keep the report small: only sets with something to say, plus totals
     let nsets = sets.len();
     let npaths: u64 = sets.iter().map(|s| s["npaths"].as_u64().unwrap_or(0)).sum();
